@@ -41,6 +41,11 @@ def families(tier, seed):
                 continue        # extrinsic inputs on a depth-2 hierarchy fail for an unrelated reason (see C08)
             out.append(dict(tag=f"{mtag}/{op}", features=dict(model=mtag, ops=[op]), kind="readonly", model=model, ops=[op], seed=seed,
                             dict_vars=mtag.startswith("dictvars")))
+        if mtag == "flat-shared-template":
+            # fixed witness of the listed finding KF-C14-state-values-cached-on-template (present in every run, whatever the seed)
+            sq = ["run_inputs", "get_run_func"]
+            out.append(dict(tag=f"{mtag}/{'+'.join(sq)}", features=dict(model=mtag, ops=sq), kind="readonly", model=model, ops=sq, seed=seed,
+                            dict_vars=False))
         seqs = [list(p) for p in itertools.permutations(ops, 2)]
         rng.shuffle(seqs)
         seqs = [q for q in seqs if not ("run_inputs" in q and mtag == "hierarchy-2")]
